@@ -33,6 +33,8 @@ def build_case(rng: random.Random) -> dict:
     }
     if case['via'] in ('to_list', 'to_str') and len(case['lines']) >= 2 and rng.random() < 0.06:
         case['deep'] = rng.choice([17, 18, 24, 40])
+    if mode != 'none' and rng.random() < 0.2:
+        case['shared_bullets'] = rng.choice(['wider', 'tab'])
     if case['via'] == 'textblock_given_once':
         case['repeat'] = max(case['repeat'], 2)
         case['copied'] = rng.choice([None, 'deepcopy', 'pickle'])
@@ -71,7 +73,14 @@ def make_indentizer(case, tg):
             return tg.Indentizer(indentor=indentor, bullet_list=bullets)
         finally:
             tg.DEFAULT_INDENT_NR_SPACES = saved
-    return tg.Indentizer(indentor=indentor, spaces_count=case['spaces'], bullet_list=bullets)
+    first = tg.Indentizer(indentor=indentor, spaces_count=case['spaces'], bullet_list=bullets)
+    if bullets is not None and case.get('shared_bullets'):
+        # one list style object serves several indenters (all outline levels set up front):
+        # a second one of another width / indentor is built before the first is used
+        other = tg.Indentor.TAB if case['indentor'] == 'spaces' and case['shared_bullets'] == 'tab' \
+            else indentor
+        tg.Indentizer(indentor=other, spaces_count=case['spaces'] + 4, bullet_list=bullets)
+    return first
 
 
 def judge_lines(case, src, got):
@@ -122,6 +131,9 @@ def eval_case(case: dict) -> dict:
         cnt['lines_with_inner_line_boundaries'] = 1
     if case.get('default_override'):
         cnt['width_from_overridden_module_default'] = 1
+    if case.get('shared_bullets') and case['mode'] != 'none' and not case.get('factory') \
+            and not case.get('default_override'):
+        cnt['bullet_list_object_shared_with_another_indenter'] = 1
     cnt[f'mode_{case["mode"]}_{case["indentor"]}'] = 1
     lines = list(case['lines'])
     try:
@@ -246,7 +258,8 @@ def main(tier: str) -> int:
                 'mode_all_tab', 'mode_first_tab', 'width_from_overridden_module_default',
                 'lines_with_inner_line_boundaries', 'forked_copies_indented',
                 'blocks_deep_copied_between_indents', 'blocks_pickled_between_indents',
-                'contents_nested_17_levels_and_deeper')
+                'contents_nested_17_levels_and_deeper',
+                'bullet_list_object_shared_with_another_indenter')
     for _item, res in run.pmap(_worker, [(run.seed, i, per) for i in range(total // per)]):
         if 'harness_error' in res:
             run.mark_inconclusive('harness error: ' + res['harness_error'][-300:])
